@@ -114,6 +114,8 @@ class PageWorld:
         self.prev_wb = 0
         self.prev_evictions = 0
         self.last_write: dict[int, int] = {}  # page -> stamp of the latest completed write_page
+        self.last_write_rec: dict[int, dict] = {}
+        self.pending_loss: list = []
         self.probes: dict[str, int] = {}
         self.counts: dict[str, int] = {}
         self.states: set = set()
@@ -158,6 +160,7 @@ class PageWorld:
                         self.probe("probe.page_readahead_over_dirty_page_with_room")
             gen = pc.read_page(k)
         elif kind == "wr":
+            rec["hit"] = k in pc._pages
             if k in pc._pages:
                 self.probe("probe.page_write_hit")
             gen = pc.write_page(k)
@@ -169,6 +172,7 @@ class PageWorld:
         self.hist.complete(rec, res)
         if kind == "wr":
             self.last_write[k] = rec["ret"]
+            self.last_write_rec[k] = rec
         del self.inflight[rec["id"]]
         self.done_queue.append(rec)
         self.n_completed += 1
@@ -195,6 +199,41 @@ class PageWorld:
             raise Violation(f"{P}/writeback-lost/PageCache/dirty-page-{how}-without-writeback-during-{kind}",
                             f"dirty page(s) {sorted(gone)} left the dirty state during {kind} while only {paid} disk "
                             f"write-back(s) were accounted (cached now: {list(pages)}, dirty now: {sorted(dirty_now)})")
+        if gone:
+            # The write-back that pays for a page leaving the dirty state occupied the device for one disk write
+            # latency: it started at now - w and cannot contain a write acknowledged after that instant.
+            now = self.now_ns()
+            w_ns = int(self.sc["lat"]["w"]) * 1000
+            started = now - w_ns
+            for g in sorted(gone):
+                lw = self.last_write_rec.get(g)
+                if lw is not None and lw["t_ret"] > started:
+                    by = "flush" if kind == "pflush" else "eviction"
+                    how = "write-hit-on-the-page-being-written-back" if lw.get("hit") else "write-miss-that-re-inserted-the-page"
+                    # Not a verdict yet: another write-back of the same page id, started after the write, may still be in
+                    # flight (two evictors that picked the same victim); it would complete within one write latency and
+                    # shows up as a write-back accounted with no page leaving the dirty state.
+                    self.pending_loss.append({
+                        "page": g, "ack": lw["t_ret"], "deadline": now + w_ns,
+                        "sig": f"{P}/writeback-lost/PageCache/page-left-dirty-state-by-{by}-whose-writeback-predates-the-write/{how}",
+                        "msg": f"page {g} was written (acknowledged at t={lw['t_ret']}ns) and left the dirty state at t={now}ns "
+                               f"during {kind}; the write-back accounted for it started at t={started}ns, before that write, "
+                               f"and no later write-back followed within one disk write latency: the written data never "
+                               f"reached the device"})
+        if self.pending_loss:
+            now = self.now_ns()
+            surplus = paid - len(gone)
+            started = now - int(self.sc["lat"]["w"]) * 1000
+            while surplus > 0:
+                hit = next((x for x in self.pending_loss if x["ack"] <= started), None)
+                if hit is None:
+                    break
+                self.pending_loss.remove(hit)
+                self.probe("probe.page_late_duplicate_writeback_covered_write")
+                surplus -= 1
+            for x in self.pending_loss:
+                if now > x["deadline"]:
+                    raise Violation(x["sig"], x["msg"])
         if paid:
             self.count("fault.page_dirty_writeback", paid)
             if kind != "pflush":
@@ -257,6 +296,9 @@ class PageWorld:
             self.probe("probe.page_flush_wrote")
 
     def final_checks(self):
+        if self.pending_loss:
+            x = self.pending_loss[0]
+            raise Violation(x["sig"], x["msg"])
         if self.pc.dirty_pages:
             raise Violation(f"{P}/flush-incomplete/PageCache/dirty-after-final-flush",
                             f"{self.pc.dirty_pages} page(s) still dirty after the final flush at quiescence")
